@@ -149,6 +149,9 @@ def step (s : St) (args : List String) : St × String × String :=
       | none => ({}, "bad-scenario", "bad-scenario")
   | ["new", "pxr", k] => pxr k "mid"
   | ["new", "pxr", k, w] => pxr k w
+  | ["new", "rs2"] =>
+      -- a second Subscribe on one ReconnectClient after a cancelled first one, then Close: Go-side monitor (rc_rs2.go)
+      ({ ret := "-", mon := "ok" }, "rs2=ok", "rs2=ok")
   | ["new", "gf", outs, sched] =>
       -- `client.NewImpl` = getFirst over several client types (Model/ClientFirst.lean, Driver/GF.lean)
       match Driver.GF.run outs sched with
